@@ -187,8 +187,47 @@ class _Elim:
                     raise _Bail("try returns on some paths only")
                 out.append(ast.copy_location(ast.Try(body=b, handlers=hs, orelse=o if st.orelse else [], finalbody=st.finalbody), st))
                 return out, (_RET if _RET in kinds else _ABRUPT)
+            if isinstance(st, (ast.For, ast.While)) and not any(isinstance(n, (ast.For, ast.While)) and n is not st and _contains_return(n.body) for n in walk_local(st)):
+                # `for ..: ... return v` followed by `rest`  ==  `for ..: ... <deliver v>; break`
+                # with `rest` as the loop's else-clause (it runs exactly when the loop was not left)
+                body = self._loop_body(st.body)
+                r, kr = self.run(list(st.orelse) + rest, tail)
+                if kr == _FALL and self.needs_value:
+                    raise _Bail("loop may end without a return value")
+                if isinstance(st, ast.For):
+                    new_loop = ast.For(target=st.target, iter=st.iter, body=body, orelse=r, type_comment=None)
+                else:
+                    new_loop = ast.While(test=st.test, body=body, orelse=r)
+                out.append(ast.copy_location(new_loop, st))
+                return out, (_FALL if kr == _FALL else _RET)
             raise _Bail(f"return inside {type(st).__name__}")
         return out, _FALL
+
+    def _loop_body(self, stmts: list[ast.stmt]) -> list[ast.stmt]:
+        """Inside the loop a return becomes <deliver>; break - no restructuring is needed because
+        break already skips everything that follows."""
+        out: list[ast.stmt] = []
+        for st in stmts:
+            if isinstance(st, ast.Return):
+                val = st.value if st.value is not None else ast.Constant(value=None)
+                out.extend(self.on_return(val, st))
+                out.append(ast.copy_location(ast.Break(), st))
+                return out
+            if not _contains_return([st]):
+                out.append(st)
+                continue
+            if isinstance(st, ast.If):
+                out.append(ast.copy_location(ast.If(test=st.test, body=self._loop_body(st.body) or [ast.copy_location(ast.Pass(), st)], orelse=self._loop_body(st.orelse)), st))
+            elif isinstance(st, ast.With):
+                out.append(ast.copy_location(ast.With(items=st.items, body=self._loop_body(st.body)), st))
+            elif isinstance(st, ast.Try):
+                if st.finalbody and _contains_return(st.finalbody):
+                    raise _Bail("return inside finally")
+                hs = [ast.copy_location(ast.ExceptHandler(type=h.type, name=h.name, body=self._loop_body(h.body) or [ast.copy_location(ast.Pass(), h)]), h) for h in st.handlers]
+                out.append(ast.copy_location(ast.Try(body=self._loop_body(st.body), handlers=hs, orelse=self._loop_body(st.orelse), finalbody=st.finalbody), st))
+            else:
+                raise _Bail(f"return inside {type(st).__name__} inside a loop")
+        return out
 
 
 def _elim(stmts: list[ast.stmt], target: Optional[list[ast.expr]], ann, tail: bool = True) -> tuple[list[ast.stmt], str]:
